@@ -397,7 +397,8 @@ def check(repo: Repo, run: Run) -> None:
             if x.op == "ite":
                 for leaf, pc_ in _leaves(x, ()):
                     tg = branch_tag(pc_)
-                    if tg and leaf.op == "comp" and not any(l["value"] == leaf for l in landed.get(tg, [])):
+                    if tg and (leaf.op == "comp" or (leaf.op == "call" and leaf.a[0] == T("builtin", ("dict",)))) \
+                            and not any(l["value"] == leaf for l in landed.get(tg, [])):
                         landed.setdefault(tg, []).append({"kind": "assign", "key": None, "target": "log_strings", "aug": None,
                                                           "value": leaf, "pc": (), "line": dl.lineno})
     # R11: a payload is decoded only under a test of its tag - a block of a tag the parser does not know (a section added by a
@@ -520,6 +521,24 @@ def check(repo: Repo, run: Run) -> None:
             kv = x.a[1]
             if it == want_it and not conds and kv.op == "tuple" and kv.a[0] == (T("sub", (elemvar, const(1))), T("sub", (elemvar, const(0)))):
                 ok_inv = True
+        # dict(zip(index.values(), index)) / dict(zip(index.values(), index.keys())): the same pairs in the same order
+        sidx = T("sub", (loads, const("StringIndex")))
+        vals_ = T("call", (T("attr", (sidx, "values")), (), ()))
+        for x in sym.walk(ls_term):
+            if x.op == "call" and x.a[0] == T("builtin", ("dict",)) and len(x.a[1]) == 1 and not x.a[2]:
+                z = x.a[1][0]
+                if z.op == "call" and z.a[0] == T("builtin", ("zip",)) and len(z.a[1]) == 2 and z.a[1][0] == vals_ \
+                        and z.a[1][1] in (sidx, T("call", (T("attr", (sidx, "keys")), (), ()))):
+                    ok_inv = True
+        plain = [x for x in sym.walk(ls_term) if x.op == "call" and x.a[0] == T("builtin", ("dict",)) and len(x.a[1]) == 1 and not x.a[2]
+                 and x.a[1][0] in (sidx, T("call", (T("attr", (sidx, "items")), (), ())))]
+        # (dict(index) / dict(index.items()) is the index itself, string -> number: recognisably not inverted)
+        if not ok_inv and not inv and not plain and any(x.op == "call" and x.a[0] == T("builtin", ("dict",)) and sym.contains(x, sidx) for x in sym.walk(ls_term)):
+            # another way of building a dict from the index: not followed
+            run.floor_failures.append("C03/R6: log_strings is built from the StringIndex by a dict(...) expression these rules do not "
+                                      "follow: whether it maps number -> string is not decided")
+            ok_inv = True
+            landed.setdefault("TRACEV3_LOG_STRINGS", [])
         run.ob("R6", MOD, "KdBufParser.parse_v3", "string index is inverted (index -> string)", ok_inv,
                "log_strings is not {index: string for string, index in StringIndex.items()}: strings are not resolved",
                line=dl.lineno)
